@@ -51,6 +51,8 @@ class ScriptTransport(Transport):
         self.fail_writes = 0
         self.fail_plan: deque[bool] | None = None  # per-attempt plan (True = fail) consumed first
         self.fault_class = InjectedWriteFault
+        self.slow_writes = 0  # number of upcoming writes that take `slow_seconds` of (virtual) time before they happen
+        self.slow_seconds = 30.0
         self.on_write: Callable[[str], None] | None = None
         self.connected = False
         self.reads = 0
@@ -68,6 +70,12 @@ class ScriptTransport(Transport):
         return self.lines.popleft()
 
     async def write(self, decoded_message: str) -> None:
+        if self.slow_writes > 0:
+            # a slow link: the bytes go out only after a while (a caller that gives up earlier has written nothing)
+            import asyncio
+
+            self.slow_writes -= 1
+            await asyncio.sleep(self.slow_seconds)
         if self.on_write is not None:
             self.on_write(decoded_message)
         fail = False
